@@ -1,8 +1,15 @@
 #!/bin/sh
-# Build the conformance harness once (offline) so that the checks only need incremental rebuilds.
+# Build the conformance harnesses once (offline) so that the checks only need incremental rebuilds.
 set -e
 cd "$(dirname "$0")/.."
 mkdir -p out evidence
 [ -f harness/Cargo.lock ] || cp /repo/Cargo.lock harness/Cargo.lock
-(cd harness && CARGO_NET_OFFLINE=true cargo build --release --offline --quiet)
+[ -f harness_f/Cargo.lock ] || cp /repo/Cargo.lock harness_f/Cargo.lock
+export CARGO_NET_OFFLINE=true
+(cd harness && cargo build --release --offline --quiet && cargo build --profile dbg --offline --quiet)
+(cd harness_f && cargo build --release --offline --quiet --target-dir target_std_hash --features std,hash \
+  && cargo build --release --offline --quiet --target-dir target_nostd_hash --features hash \
+  && cargo build --release --offline --quiet --target-dir target_std_nohash --features std \
+  && cargo build --release --offline --quiet --target-dir target_nostd_nohash --features "")
+(cd /repo && cargo build --release --offline --quiet -p ruzstd-cli --target-dir /verif/out/cli_target)
 echo setup ok
